@@ -443,6 +443,25 @@ def cmid_reader_rule(repo: Repo, rep, P: str, rule: str):
     it = _resolve(lp.iter, fdefs)
     offset_mode = False
     if isinstance(it, ast.Call) and norm(it.func) == "zip" and len(it.args) == 2 and isinstance(lp.target, ast.Tuple) and len(lp.target.elts) == 2 \
+            and isinstance(it.args[1], ast.Call) and norm(it.args[1].func) in ("count", "itertools.count") and data:
+        # for name, offset in zip(<controllers>, count(0, 8)): one offset per controller, 8 apart
+        ca = it.args[1].args
+        try:
+            c0 = repo.fold(ca[0], ci=mod) if ca else 0
+            c1 = repo.fold(ca[1], ci=mod) if len(ca) > 1 else 1
+        except Exception:
+            c0 = c1 = None
+        if (c0, c1) != (0, 8):
+            if c0 is None:
+                rep.inconclusive(f"{P}.{rule}", con, norm(it.args[1]), "offset sequence not constant", where)
+            else:
+                rep.violation(f"{P}.{rule}", con, norm(it.args[1]), "CMID records start at offset 0 and are 8 bytes apart", f"{mod.file.rel}:{lp.lineno}")
+            return
+        offset_mode = True
+        seq = it.args[0]
+        start = "0"
+        lp_target_i, lp_target_name = lp.target.elts[1], lp.target.elts[0]
+    elif isinstance(it, ast.Call) and norm(it.func) == "zip" and len(it.args) == 2 and isinstance(lp.target, ast.Tuple) and len(lp.target.elts) == 2 \
             and isinstance(it.args[1], ast.Call) and norm(it.args[1].func) == "range" and data:
         # for name, offset in zip(<controllers>, range(0, stop, 8))
         r = it.args[1].args
